@@ -76,3 +76,84 @@ pub struct S3Skip {
     pub b: i32,
     pub c: i32,
 }
+
+// ---- DeserializeValue family
+use scylla_cql_core::DeserializeValue;
+
+#[derive(DeserializeValue, Debug, PartialEq)]
+#[scylla(crate = scylla_cql_core)]
+pub struct D3 {
+    pub a: i32,
+    pub b: i32,
+    pub c: i32,
+}
+
+#[derive(DeserializeValue, Debug, PartialEq)]
+#[scylla(crate = scylla_cql_core)]
+pub struct D3AllowMissingB {
+    pub a: i32,
+    #[scylla(allow_missing)]
+    pub b: i32,
+    pub c: i32,
+}
+
+#[derive(DeserializeValue, Debug, PartialEq)]
+#[scylla(crate = scylla_cql_core)]
+pub struct D3DefaultNullA {
+    #[scylla(default_when_null)]
+    pub a: i32,
+    pub b: Option<i32>,
+    pub c: i32,
+}
+
+#[derive(DeserializeValue, Debug, PartialEq)]
+#[scylla(crate = scylla_cql_core, forbid_excess_udt_fields)]
+pub struct D3Strict {
+    pub a: i32,
+    pub b: i32,
+    pub c: i32,
+}
+
+#[derive(DeserializeValue, Debug, PartialEq)]
+#[scylla(crate = scylla_cql_core)]
+pub struct D3RenameSkip {
+    #[scylla(rename = "x")]
+    pub a: i32,
+    #[scylla(skip)]
+    pub b: i32,
+    pub c: i32,
+}
+
+#[derive(DeserializeValue, Debug, PartialEq)]
+#[scylla(crate = scylla_cql_core, flavor = "enforce_order")]
+pub struct D3Ordered {
+    pub a: i32,
+    pub b: i32,
+    pub c: i32,
+}
+
+#[derive(DeserializeValue, Debug, PartialEq)]
+#[scylla(crate = scylla_cql_core, flavor = "enforce_order", forbid_excess_udt_fields)]
+pub struct D3OrderedStrict {
+    pub a: i32,
+    pub b: i32,
+    pub c: i32,
+}
+
+#[derive(DeserializeValue, Debug, PartialEq)]
+#[scylla(crate = scylla_cql_core, flavor = "enforce_order", skip_name_checks)]
+pub struct D3OrderedNoNames {
+    pub a: i32,
+    pub b: i32,
+    pub c: i32,
+}
+
+#[derive(DeserializeValue, Debug, PartialEq)]
+#[scylla(crate = scylla_cql_core, flavor = "enforce_order")]
+pub struct D3OrderedMissingNull {
+    #[scylla(allow_missing)]
+    #[scylla(default_when_null)]
+    pub a: i32,
+    pub b: Option<i32>,
+    pub c: i32,
+}
